@@ -151,6 +151,12 @@ func (s *Sim) record(r Rec, t *task) {
 
 	s.hist = push(s.hist, r)
 
+	// progress = a completed transfer, a close, a task starting or ending; learning
+	// again that a channel is closed, or an environment note, is not
+	if (r.Kind == KRecv && r.Ok) || r.Kind == KSend || r.Kind == KClose || r.Kind == KSpawn || r.Kind == KExit {
+		s.progressStep = s.step
+	}
+
 	s.mix(uint64(r.Kind), hashString(r.Site)^uint64(r.Task)<<40^uint64(r.Ch)<<20)
 	s.mix(uint64(r.T), uint64(r.Val)^uint64(r.Aux)<<32)
 
@@ -617,4 +623,75 @@ func SleepOr(site string, d time.Duration, done <-chan struct{}) bool {
 	defer tm.Stop()
 
 	return Select(site, false, RecvCase(tm.C), RecvCase(done)).won == 0
+}
+
+// ---------------------------------------------------------------------------------
+// map iteration order
+
+// MapKeys returns the keys of m in an order taken from the choice stream: Go's
+// randomised map iteration order becomes a seeded, replayable decision. The default
+// decision (0) is ascending order; any other decision rotates it.
+func MapKeys[K comparable, V any](site string, m map[K]V) []K {
+	if len(m) == 0 {
+		return nil
+	}
+
+	keys := make([]K, 0, len(m))
+	for k := range m {
+		keys = append(keys, k)
+	}
+
+	if len(keys) == 1 {
+		return keys
+	}
+
+	sortKeys(keys)
+
+	if r := mapOrder(site, len(keys)); r > 0 {
+		rot := make([]K, 0, len(keys))
+		rot = append(rot, keys[r:]...)
+		rot = append(rot, keys[:r]...)
+
+		return rot
+	}
+
+	return keys
+}
+
+func sortKeys[K comparable](keys []K) {
+	switch ks := any(keys).(type) {
+	case []uint:
+		insertionSort(ks, func(a, b uint) bool { return a < b })
+	case []int:
+		insertionSort(ks, func(a, b int) bool { return a < b })
+	case []string:
+		insertionSort(ks, func(a, b string) bool { return a < b })
+	case []uint64:
+		insertionSort(ks, func(a, b uint64) bool { return a < b })
+	case []int64:
+		insertionSort(ks, func(a, b int64) bool { return a < b })
+	default:
+		insertionSort(keys, func(a, b K) bool { return fmt.Sprint(a) < fmt.Sprint(b) })
+	}
+}
+
+func insertionSort[T any](xs []T, less func(a, b T) bool) {
+	for i := 1; i < len(xs); i++ {
+		for j := i; j > 0 && less(xs[j], xs[j-1]); j-- {
+			xs[j], xs[j-1] = xs[j-1], xs[j]
+		}
+	}
+}
+
+//go:norace
+func mapOrder(site string, n int) int {
+	s := cur
+	if s == nil || s.running == nil {
+		return 0
+	}
+
+	r := s.ch.choose(chMap, n)
+	s.mix(0x61, uint64(r))
+
+	return r
 }
